@@ -65,9 +65,10 @@ Child(R, st) ==
     scalar |-> IF R.comps = 0 THEN 1 ELSE 0,
     time   |-> IF R.T = 0 THEN <<-1>> ELSE [i \in 1..Len(st.tsel) |-> RootTime(R, st.tsel[i])],
     date   |-> IF R.T = 0 THEN <<-1>> ELSE [i \in 1..Len(st.tsel) |-> RootDate(R, st.tsel[i])],
-    timelist |-> IF st.ser THEN 1 ELSE 0 ]
+    timelist |-> IF st.ser THEN 1 ELSE 0,
+    dtype  |-> R.dtype ]          \* the payload keeps the parent's pixel type
 
-Fields == <<"shape", "tags", "origin", "dims", "vsize", "series", "scalar", "time", "date", "timelist">>
+Fields == <<"shape", "tags", "origin", "dims", "vsize", "series", "scalar", "time", "date", "timelist", "dtype">>
 ClauseOf(f) == CASE f \in {"shape", "tags"} -> "BlockOfParentData"
                  [] f \in {"origin", "dims", "vsize"} -> "PhysicalPlacement"
                  [] f \in {"time", "date", "timelist"} -> "TimeStamps"
